@@ -14,6 +14,9 @@
   the number of times the state is left and its entries lie in [0,1]; fit_discrete_mc's state
   values are exactly the nearest grid points (C16 theorems) and its P counts transitions between
   those points (row numbers ↦ grid points is injective on strictly increasing grids).
+  discrete_var (its glue: default grid sizes, symmetric linspace grids, call of fit_discrete_mc,
+  IndexError / ValueError branches) is modelled and characterised; its simulation and Lyapunov
+  solve are external inputs.
   Not proved here: anything about `sqrt`/`erfc` themselves (parameters), floating-point rounding.
 -/
 import QEModel.C13
@@ -25,6 +28,7 @@ import QEProofs.Lemmas.C13Poly
 import QEProofs.Lemmas.C13Out
 import QEProofs.Lemmas.C13Unique
 import QEProofs.Lemmas.C13FitInj
+import QEProofs.Lemmas.C13DVar
 import QEProofs.Properties.C16
 namespace QE.C13
 open QE Finset
@@ -1060,6 +1064,193 @@ example : (fitDiscreteMc (α := ℚ) [[-1/10, 6/5], [2, 0], [1/2, 2/5], [1, 1/10
     = some [[0, 0], [1, 0], [2, 0], [0, 1]] := by
   decide +kernel
 example : ∀ g ∈ ([[0, 1, 2], [0, 1]] : List (List Rat)), g ≠ [] ∧ g.Pairwise (· ≤ ·) := by decide +kernel
+
+/-! ## discrete_var (the glue around fit_discrete_mc) -/
+
+section dvar
+variable {K : Type} [Field K] [LinearOrder K] [IsStrictOrderedRing K]
+
+omit [IsStrictOrderedRing K] in
+/-- **When `discrete_var` raises `IndexError`** (after the simulation): exactly when `grid_sizes`
+    is given with fewer than `m` entries or one of its first `m` entries is `0`; never for the
+    default `grid_sizes=None` (which means ten points in every dimension). -/
+theorem discreteVar_indexError_iff {α : Type} [NatCast α] [Div α] (sigmaVec : List K) (std : K)
+    (gs : Option (List ℕ)) (X : List (List K)) (o : Bool) :
+    (discreteVar (α := α) sigmaVec std gs X o = .error "IndexError" ↔
+      ∃ s, gs = some s ∧ (s.length < sigmaVec.length ∨ ∃ i, i < sigmaVec.length ∧ s.getD i 0 = 0)) ∧
+    dvarSizes sigmaVec.length none = List.replicate sigmaVec.length 10 := by
+  refine ⟨?_, rfl⟩
+  have key : discreteVar (α := α) sigmaVec std gs X o = .error "IndexError" ↔
+      ((dvarSizes sigmaVec.length gs).length < sigmaVec.length ∨
+        ∃ i, i < sigmaVec.length ∧ (dvarSizes sigmaVec.length gs).getD i 0 = 0) := by
+    unfold discreteVar
+    simp only []
+    generalize dvarSizes sigmaVec.length gs = sizes
+    split_ifs with h1 h2
+    · simp [h1]
+    · rw [List.any_eq_true] at h2
+      obtain ⟨i, hi, h0⟩ := h2
+      simp only [true_iff]
+      exact Or.inr ⟨i, List.mem_range.mp hi, by simpa using h0⟩
+    · have hne : ¬ ∃ i, i < sigmaVec.length ∧ sizes.getD i 0 = 0 := by
+        rintro ⟨i, hi, h0⟩
+        apply h2
+        rw [List.any_eq_true]
+        exact ⟨i, List.mem_range.mpr hi, by rw [beq_iff_eq]; exact h0⟩
+      constructor
+      · intro h; split at h <;> simp at h
+      · rintro (h | h)
+        · exact absurd h h1
+        · exact absurd h hne
+  rw [key]
+  cases gs with
+  | none =>
+    simp only [dvarSizes, List.length_replicate, lt_irrefl, false_or]
+    constructor
+    · rintro ⟨i, hi, h0⟩
+      simp [List.getD_eq_getElem?_getD, hi] at h0
+    · rintro ⟨s, hs, _⟩; simp at hs
+  | some s =>
+    simp only [dvarSizes]
+    constructor
+    · intro h; exact ⟨s, rfl, h⟩
+    · rintro ⟨s', hs', h⟩
+      have : s' = s := by simpa using hs'.symm
+      subst this; exact h
+
+/-- **`discrete_var` discretises onto the symmetric `linspace` grids, nearest point.** If it
+    returns `(V, P)` for positive `std_devs` and positive stationary standard deviations, then
+    with `sizes` the effective grid sizes (ten each by default): grid `i` is
+    `linspace(-std·σ_i, std·σ_i, sizes_i)` with `sizes_i ≥ 1` — non-empty, sorted, strictly
+    increasing and evenly spaced `-std·σ_i + 2 std·σ_i j/(sizes_i - 1)` when `sizes_i ≥ 2`;
+    `(V, P)` is `fit_discrete_mc` of the path on these grids; and every observation is mapped to
+    a row of the product grid made of the per-dimension nearest grid values, at minimal Euclidean
+    distance (both orders, every dimension and path length). -/
+theorem discreteVar_spec {α : Type} [NatCast α] [Div α] (sigmaVec : List K) (std : K)
+    (hstd : 0 < std) (hsig : ∀ i, i < sigmaVec.length → 0 < sigmaVec.getD i 0)
+    (gs : Option (List ℕ)) (X : List (List K)) (o : Bool) (V : List (List K)) (P : List (List α))
+    (h : discreteVar (α := α) sigmaVec std gs X o = .ok (V, P)) :
+    let sizes := dvarSizes sigmaVec.length gs
+    let grids := dvarGrids sigmaVec std sizes
+    grids.length = sigmaVec.length ∧
+    (∀ i, i < sigmaVec.length → 1 ≤ sizes.getD i 0 ∧
+      grids.getD i [] = linspace (-(std * sigmaVec.getD i 0)) (std * sigmaVec.getD i 0) (sizes.getD i 0) ∧
+      (2 ≤ sizes.getD i 0 → (grids.getD i []).Pairwise (· < ·) ∧
+        ∀ j, j < sizes.getD i 0 → (grids.getD i []).getD j 0
+          = -(std * sigmaVec.getD i 0) + (j : K) * ((std * sigmaVec.getD i 0 - -(std * sigmaVec.getD i 0))
+              / ((sizes.getD i 0 : K) - 1)))) ∧
+    (∀ g ∈ grids, g ≠ [] ∧ g.Pairwise (· ≤ ·)) ∧
+    fitDiscreteMcG (α := α) X grids o = some (V, P) ∧
+    ∀ x : List K,
+      QE.C16.nearestIndex grids x o < (QE.C16.cartesian grids o).length ∧
+      (∀ d, d < grids.length →
+        ((QE.C16.cartesian grids o).getD (QE.C16.nearestIndex grids x o) []).getD d 0
+          = (grids.getD d []).getD (QE.C16.nearest1 (grids.getD d []) (x.getD d 0)) 0) ∧
+      ∀ r, r < (QE.C16.cartesian grids o).length →
+        QE.C16.sqDist grids.length x ((QE.C16.cartesian grids o).getD (QE.C16.nearestIndex grids x o) [])
+          ≤ QE.C16.sqDist grids.length x ((QE.C16.cartesian grids o).getD r []) := by
+  intro sizes grids
+  unfold discreteVar at h
+  simp only [] at h
+  split at h
+  · simp at h
+  · rename_i hlen
+    split at h
+    · simp at h
+    · rename_i hzero
+      have hsz : ∀ i, i < sigmaVec.length → 1 ≤ sizes.getD i 0 := by
+        intro i hi
+        by_contra hc
+        have hc0 : sizes.getD i 0 = 0 := by omega
+        apply hzero
+        rw [List.any_eq_true]
+        exact ⟨i, List.mem_range.mpr hi, by rw [beq_iff_eq]; exact hc0⟩
+      have hub : ∀ i, i < sigmaVec.length → -(std * sigmaVec.getD i 0) < std * sigmaVec.getD i 0 := by
+        intro i hi
+        have := mul_pos hstd (hsig i hi)
+        linarith
+      have hg : ∀ i, i < sigmaVec.length → grids.getD i []
+          = linspace (-(std * sigmaVec.getD i 0)) (std * sigmaVec.getD i 0) (sizes.getD i 0) :=
+        fun i hi => dvarGrids_getD sigmaVec std sizes i hi
+      have hsorted : ∀ g ∈ grids, g ≠ [] ∧ g.Pairwise (· ≤ ·) := by
+        intro g hgm
+        obtain ⟨i, hi, rfl⟩ := List.getElem_of_mem hgm
+        have hi' : i < sigmaVec.length := by rw [dvarGrids_length] at hi; exact hi
+        have e := hg i hi'
+        rw [List.getD_eq_getElem?_getD, List.getElem?_eq_getElem hi] at e
+        simp only [Option.getD_some] at e
+        rw [e]
+        exact linspace_sorted _ _ (hub i hi') _ (hsz i hi')
+      have hfit : fitDiscreteMcG (α := α) X grids o = some (V, P) := by
+        split at h
+        · simp at h
+        · rename_i r hr
+          simp only [Except.ok.injEq] at h
+          rw [← h]; exact hr
+      refine ⟨dvarGrids_length sigmaVec std sizes, ?_, hsorted, hfit, ?_⟩
+      · intro i hi
+        refine ⟨hsz i hi, hg i hi, fun h2 => ?_⟩
+        rw [hg i hi]
+        exact ⟨linspace_pairwise_lt _ _ (hub i hi) _ h2,
+          fun j hj => linspace_getD _ _ _ h2 j hj⟩
+      · intro x
+        exact QE.C16.nearestIndex_is_argmin grids x o hsorted
+
+omit [Field K] [LinearOrder K] [IsStrictOrderedRing K] in
+/-- at `Rat` the generic `fit_discrete_mc` of `discrete_var` is the `fitDiscreteMc` of the
+    `fit_*` theorems above (which therefore describe `discrete_var`'s chain as well) -/
+theorem fitDiscreteMcG_rat {α : Type} [NatCast α] [Div α] (X grids : List (List Rat)) (o : Bool) :
+    fitDiscreteMcG (α := α) X grids o = fitDiscreteMc (α := α) X grids o := rfl
+
+omit [IsStrictOrderedRing K] in
+/-- **When `discrete_var` raises `ValueError`** (after the simulation): exactly when the grid
+    sizes are acceptable and some visited cell of the product grid is never left by the path. -/
+theorem discreteVar_valueError_iff {α : Type} [Field α] (sigmaVec : List K) (std : K)
+    (gs : Option (List ℕ)) (X : List (List K)) (o : Bool) :
+    discreteVar (α := α) sigmaVec std gs X o = .error "ValueError" ↔
+      (¬ (dvarSizes sigmaVec.length gs).length < sigmaVec.length ∧
+       (∀ i, i < sigmaVec.length → (dvarSizes sigmaVec.length gs).getD i 0 ≠ 0) ∧
+       ∃ a ∈ X.map (fun x => QE.C16.nearestIndex (dvarGrids sigmaVec std (dvarSizes sigmaVec.length gs)) x o),
+         ∀ b, transCount (X.map fun x =>
+           QE.C16.nearestIndex (dvarGrids sigmaVec std (dvarSizes sigmaVec.length gs)) x o) a b = 0) := by
+  unfold discreteVar
+  simp only []
+  generalize dvarSizes sigmaVec.length gs = sizes
+  rw [← estimate_mc_raises_iff (K := α)]
+  split_ifs with h1 h2
+  · simp [h1]
+  · rw [List.any_eq_true] at h2
+    obtain ⟨i, hi, h0⟩ := h2
+    have h0' : sizes.getD i 0 = 0 := by simpa using h0
+    constructor
+    · intro h; simp at h
+    · rintro ⟨_, hz, _⟩
+      exact absurd h0' (hz i (List.mem_range.mp hi))
+  · have hz : ∀ i, i < sigmaVec.length → sizes.getD i 0 ≠ 0 := by
+      intro i hi h0
+      apply h2
+      rw [List.any_eq_true]
+      exact ⟨i, List.mem_range.mpr hi, by rw [beq_iff_eq]; exact h0⟩
+    unfold fitDiscreteMcG
+    cases hm : estimateMc (α := α) (X.map fun x => QE.C16.nearestIndex (dvarGrids sigmaVec std sizes) x o) with
+    | none => exact ⟨fun _ => ⟨h1, hz, rfl⟩, fun _ => rfl⟩
+    | some r => simp
+
+/-- non-vacuity: one dimension, `σ = 1`, `std_devs = 2`, default sizes (ten points on `[-2, 2]`),
+    a path that leaves every visited cell -/
+example : (0 : ℚ) < 2 ∧ (∀ i, i < ([1] : List ℚ).length → 0 < ([1] : List ℚ).getD i 0) ∧
+    (discreteVar (α := ℚ) ([1] : List ℚ) 2 none [[0], [3/2], [-3], [1/5], [7/5]] false).toOption.map Prod.fst
+      = some [[-2], [-2/9], [2/9], [14/9]] := by
+  refine ⟨by norm_num, ?_, by decide +kernel⟩
+  intro i hi; simp at hi; subst hi; norm_num
+
+/-- the two `IndexError` branches and the `ValueError` branch are reachable -/
+example : discreteVar (α := ℚ) ([1, 1] : List ℚ) 2 (some [3]) [[0, 0]] false = .error "IndexError" ∧
+    discreteVar (α := ℚ) ([1] : List ℚ) 2 (some [0]) [[0]] false = .error "IndexError" ∧
+    discreteVar (α := ℚ) ([1] : List ℚ) 2 none [[0], [3/2]] false = .error "ValueError" := by
+  decide +kernel
+
+end dvar
 
 /-! ## histories
 
